@@ -354,6 +354,10 @@ def _run_structural(ctx):
 
     from .localpool import rule_enqueue_registers
     rule_enqueue_registers(ctx, r3)
+    # "the project's log files": the pool is started for the project directory (where cli.main creates .gwf/logs and `gwf logs` reads), wherever the command is typed
+    from .evalhelpers import cached_witness, report_witness, workers_command_witness
+    report_witness(r4, "src/gwf/plugins/workers.py::workers::pool-directory", "src/gwf/plugins/workers.py:1", cached_witness(ctx, "workers-cmd", workers_command_witness),
+                   "`gwf workers` starts the pool for the project directory of the workflow file", select=lambda d: "project directory" in d or "ends with" in d or "starts the pool" in d and "times" in d)
     und = [o for o in outs if o.state.facts.get("wait_undrained")]
     r4.check(not und, construct + "::drained", "the task's output pipes are read while it runs (communicate(), not a bare wait())",
              f"the coroutine awaits proc.wait() (line {und[0].state.facts.get('wait_undrained') if und else ''}) while the stdout/stderr pipes are not being read: a script that prints more "
